@@ -1339,7 +1339,7 @@ def canon(o, _depth=0):  # noqa: C901, PLR0911, PLR0912
     if isinstance(o, types.GeneratorType):
         return ("generator",)
     if isinstance(o, io.BytesIO):
-        return (tn, o.getvalue())
+        return (tn, o.getvalue(), o.tell())   # the stream position is part of the object's state
     if isinstance(o, re.Pattern):
         return (tn, o.pattern, o.flags)
     if isinstance(o, enum.Enum):
